@@ -63,6 +63,7 @@ def instances(draw, sizes, na=None, two_sided=None, cls=None, min_len=1):
         n3 = n2
     if two_sided is None:
         two_sided = pct(draw) < 70
+    extras = pct(draw) < 8
     heavy = cls in ('heavy_ties', 'tied_lower_quotas')
     t1 = draw(st.sampled_from([0, 0, 30, 60])) if not heavy else \
         draw(st.sampled_from([60, 85, 100]))
@@ -116,6 +117,18 @@ def instances(draw, sizes, na=None, two_sided=None, cls=None, min_len=1):
                    if any(inst['plec'][p - 1] == k + 1 for g in prefs[i] for p in g)]
             perm = draw(st.permutations(sts)) if len(sts) > 1 else sts
             lprefs.append(_groups(draw, list(perm), t2))
+        if extras:
+            # a hand-written second-side list may also rank students who did not apply there:
+            # ranks are positions in the list as written, the extra entries are never matched
+            for k in range(n3):
+                have = set(x for g in lprefs[k] for x in g)
+                for s in range(1, n1 + 1):
+                    if s not in have and pct(draw) < 50:
+                        pos = uni(draw, 0, len(lprefs[k]))
+                        if lprefs[k] and pos < len(lprefs[k]) and pct(draw) < 30:
+                            lprefs[k][pos].append(s)
+                        else:
+                            lprefs[k].insert(pos, [s])
         inst['lprefs'] = lprefs
     else:
         inst['lprefs'] = None
@@ -183,8 +196,10 @@ def option_sets(draw, inst, min_crit=0, max_crit=4, stab=None, pc=None, twopl=No
         ['f', 'na'] + ['crit%d' % i for i in range(len(crit))]
     order = list(draw(st.permutations(flags)))
     long_flags = draw(st.sampled_from([None, None, [1], [0, 1], [1, 0, 0], [1, 1, 0]]))
+    # `-flag=value`, the other form argparse accepts for a flag with exactly one value
+    eq = draw(st.sampled_from([None, None, None, [1], [0, 1], [1, 0, 0]]))
     return {'twopl': bool(twopl), 'stab': bool(stab), 'pc': bool(pc), 'crit': crit,
-            'order': order, 'long_flags': long_flags}
+            'order': order, 'long_flags': long_flags, 'eq': eq}
 
 
 def build_argv(opts, filename, na, bf=False):
@@ -217,6 +232,25 @@ def build_argv(opts, filename, na, bf=False):
                 if spelling[k % len(spelling)]:
                     argv[i] = LONG_FLAGS[tok]
                 k += 1
+    eq = opts.get('eq')
+    if eq:
+        flags = set(LONG_FLAGS) | set(LONG_FLAGS.values())
+        out, k, i = [], 0, 0
+        while i < len(argv):
+            tok = argv[i]
+            one_value = (tok in flags and i + 1 < len(argv) and argv[i + 1] not in flags
+                         and (i + 2 == len(argv) or argv[i + 2] in flags))
+            if one_value:
+                if eq[k % len(eq)]:
+                    out.append('%s=%s' % (tok, argv[i + 1]))
+                else:
+                    out += [tok, argv[i + 1]]
+                k += 1
+                i += 2
+            else:
+                out.append(tok)
+                i += 1
+        argv = out
     return argv
 
 
@@ -259,6 +293,12 @@ def instance_labels(inst, opts=None):
         L.append('ties_side1')
     if inst.get('lprefs') and any(len(g) > 1 for pl in inst['lprefs'] for g in pl):
         L.append('ties_side2')
+    if inst.get('lprefs'):
+        for k, pl in enumerate(inst['lprefs']):
+            if any(not any(inst['plec'][p - 1] == k + 1 for g in inst['prefs'][x - 1] for p in g)
+                   for grp in pl for x in grp if 1 <= x <= inst['n1']):
+                L.append('second_side_ranks_non_applicant')
+                break
     if inst['na'] == 3:
         cnt = {}
         for l in inst['plec']:
